@@ -922,6 +922,13 @@ func (env *SpecEnv) evalBinary(x *ast.BinaryExpr) (SV, error) {
 			if a.S == "nil" {
 				o = b
 			}
+			if o.S != "nil" {
+				switch underlyingOrNil(o.T).(type) {
+				case *types.Pointer, *types.Slice, *types.Interface, *types.Map, *types.Signature, *types.Chan:
+				default:
+					return SV{}, fmt.Errorf("comparison with nil of a non-nillable value in %s", exprString(x))
+				}
+			}
 			cs = append(cs, sEq(o.V.C[0], "0"))
 		} else {
 			if len(a.V.C) != len(b.V.C) {
